@@ -576,7 +576,8 @@ def gen_content(r, p, single, flavour):
         d = r.choice([[], [], [b"d1"], [b"d2"], [b"d1", b"deep"]])
         if flavour == "last-partial" and i == n - 1:
             d = [b"zz"]
-        leaf = b"zq%d" % i + r.choice([b"", b".bin", " é".encode(), b" sp"])
+        # names a shell or another platform would treat specially are ordinary bytes here (a back-slash is not a separator)
+        leaf = b"zq%d" % i + r.choice([b"", b".bin", " é".encode(), b" sp", b"", b".bin", b" back\\slash", b"'q\"", b"#h", b"a:b", b"%41", b"-x"])
         vfy.tree_set(tree, d + [leaf], r.randbytes(sizes[i]))
     return tree
 
@@ -793,6 +794,7 @@ def run(ctx):
     if not ctx.need_rust() or not ctx.need_runner():
         return finish(ctx)
     hash_selftest(ctx)
+    vfy.big_piece_cases(ctx)
     r = ctx.rng
     cases = corpus() + [gen_case(r, i) for i in range(ctx.n(170, 9000))]
     tmp = tempfile.mkdtemp(prefix="c02-")
